@@ -22,7 +22,7 @@ KEY_MAPS = {
 }
 COMPRESSIONS = {"off": False, "true": True, "stored": zipfile.ZIP_STORED, "deflated": zipfile.ZIP_DEFLATED,
                 "bzip2": zipfile.ZIP_BZIP2, "lzma": zipfile.ZIP_LZMA}
-USER_META = {"foo": "bar", "n": 3}
+USER_META = {"foo": "bar", "n": 3, "$comment": "a user key that starts like the reserved ones"}
 
 
 # ---------------------------------------------------------------------------------------------------
@@ -424,6 +424,10 @@ def obs_serial(c: Ctx, enc, *, props, quick=True, salt=0, tmpdir=None):
                 def do_load(cls=cls, load_kw=load_kw):
                     meta = {}
                     if text_holder.get("path"):
+                        if salt % 2:       # the file is renamed before it is read (its name is not part of the format)
+                            moved = text_holder["path"] + ".moved.bin"
+                            os.replace(text_holder["path"], moved)
+                            text_holder["path"] = moved
                         t2 = cls.load(text_holder["path"], file_meta=meta, **load_kw)
                     else:
                         t2 = cls.load(io.StringIO(text_holder["text"]), file_meta=meta, **load_kw)
@@ -479,6 +483,20 @@ def obs_serial(c: Ctx, enc, *, props, quick=True, salt=0, tmpdir=None):
             lkw = {"mapper": deser_short} if dname == "short_user_keys" and is_item else load_kw
             out.append({"q": "load_ext", "a": a, "r": call(
                 lambda doc=doc, lkw=lkw: cls.load(io.StringIO(json.dumps(doc)), **lkw), lambda t2: {"canon": canon_of(t2, fl)})})
+        if salt % 3 == 0 and tmpdir:
+            # a compressed document produced by other means: a zip archive whose single member has any name
+            doc = render_doc(enc, fl)
+            zpath = os.path.join(tmpdir, f"ext{salt}.nutree")
+
+            def load_zipped(doc=doc, zpath=zpath, lkw=load_kw):
+                with zipfile.ZipFile(zpath, "w", compression=zipfile.ZIP_DEFLATED) as zf:
+                    zf.writestr("tree.json", json.dumps(doc))
+                try:
+                    return cls.load(zpath, **lkw)
+                finally:
+                    os.unlink(zpath)
+            out.append({"q": "load_ext", "a": {"doc": "zipped_by_other_means", "expect": "ok"},
+                        "r": call(load_zipped, lambda t2: {"canon": canon_of(t2, fl)})})
         if salt % 5 == 0:
             doc = render_doc(enc, fl)
             for mname, mk in MALFORMED.items():
